@@ -27,6 +27,7 @@ type world struct {
 	extKind map[string]string // name -> "ext" | "int"
 	notes   []string
 	side    []string // non-canonical facts (timestamps, deadlines) written as comment lines
+	extra   []string // derived tokens appended to the op line in the trace (hashes)
 }
 
 func (w *world) settle() bool {
@@ -111,7 +112,12 @@ func (w *world) apply(ws []string) bool {
 	case "invoke": // invoke <caller> <size> <fill>
 		c, _ := strconv.Atoi(ws[1])
 		size, _ := strconv.Atoi(ws[2])
-		s.Invoke(c, stack.Payload(size, ws[3], c), fmt.Sprintf("Root=1-5e1b4151-%024d;Parent=53995c3f42cd8ad8;Sampled=1", c))
+		pl := stack.Payload(size, ws[3], c)
+		w.extra = []string{"h=" + hashOf(pl)}
+		if size > interop.MaxPayloadSize {
+			w.extra = []string{"h=" + hashOf(pl[:interop.MaxPayloadSize])}
+		}
+		s.Invoke(c, pl, fmt.Sprintf("Root=1-5e1b4151-%024d;Parent=53995c3f42cd8ad8;Sampled=1", c))
 	case "beh": // beh <base> <term=exit:N|ignore> [execfail]
 		b := stack.Behaviour{}
 		for _, a := range ws[2:] {
@@ -254,6 +260,7 @@ func (w *world) apply(ws []string) bool {
 			}
 			id := s.Unalias(ws[2])
 			s.L.Add("#posted response %s %s", ws[2], hashOf(stack.Payload(size, ws[4], 7)))
+			w.extra = []string{"h=" + hashOf(stack.Payload(size, ws[4], 7))}
 			s.Do(stack.CallSpec{Actor: "rt", What: "response", Method: "POST", Path: rtAPI + "/runtime/invocation/" + id + "/response", Headers: hdr,
 				Body: stack.Payload(size, ws[4], 7), Proc: p})
 		case "error": // error <idref> <type> <size>
